@@ -1076,6 +1076,9 @@ def run_c20(rep, rng, tier):
             rep.violation(dict(base, kind="correspondence", model=ma if mo == "err" else "ok-tree",
                                observed=oa if io == "err" else "ok-tree",
                                what="implementation and reference module loader disagree"), no_input=True)
+    # diagnostics of the injected errors (chains over several files, namesake modules): text against the rendering model
+    check_rendering(rep, [ires[2 * k].get("ok") for k in range(len(meta))],
+                    [{"files": jobs[2 * k]["files"], "injected": meta[k][0], "victim": meta[k][1]} for k in range(len(meta))])
 
 
 def first_tree_diff(a, b):
